@@ -1,6 +1,6 @@
 SPECIFICATION TraceSpec
 CONSTANTS
-  Lens = {"iter", "eval", "fval", "obj"}
+  Lens = {"iter", "eval", "fval", "obj", "sval", "ival"}
   Val = {}
   Ns = {}
   Ds = {}
